@@ -5,6 +5,7 @@ call is logged.  The observable of a run is (call log, outcome).
 """
 from __future__ import annotations
 
+import signal
 from typing import Any, Callable, List, Optional, Tuple
 
 from .kernel import Chooser, Horizon
@@ -12,6 +13,14 @@ from .kernel import Chooser, Horizon
 
 class Boom(Exception):
     """Raised by an oracle when the explorer picks the 'raise' answer."""
+
+
+class Runaway(BaseException):
+    """The code under test makes oracle calls without end (or spins) - it is cut and reported as such."""
+
+
+MAX_LOG = 3000          # oracle calls per execution; programs of the families need < 200
+SPIN_CPU_S = 10.0       # CPU-seconds for one execution that makes no oracle call at all
 
 
 class Tok:
@@ -81,6 +90,13 @@ class Val:
         return self._derive("item", i)
 
 
+class _Log(list):
+    def append(self, x):
+        if len(self) >= MAX_LOG:
+            raise Runaway()
+        list.append(self, x)
+
+
 class Env:
     """One instance per compiled program; ``reset`` before each run."""
 
@@ -93,7 +109,7 @@ class Env:
 
     def reset(self, ch: Chooser):
         self.ch = ch
-        self.log = []
+        self.log = _Log()
 
     # -- answers ----------------------------------------------------------------------
     def ask_truth(self, label) -> bool:
@@ -145,6 +161,10 @@ class Env:
         return {"t": self.t, "v": self.v, "c": self.c, "g": self.g, "it": self.it, "it2": self.it2, "w": self.w}
 
 
+def _spin_handler(signum, frame):
+    raise Runaway()
+
+
 def normalise_exc(e: BaseException) -> str:
     n = type(e).__name__
     return "NameError" if n == "UnboundLocalError" else n
@@ -153,16 +173,23 @@ def normalise_exc(e: BaseException) -> str:
 def execute(fn: Callable[[], Any], env: Env, ch: Chooser) -> Tuple[tuple, tuple]:
     """Run fn under chooser; returns (log, outcome)."""
     env.reset(ch)
+    old = signal.signal(signal.SIGVTALRM, _spin_handler)
+    signal.setitimer(signal.ITIMER_VIRTUAL, SPIN_CPU_S)
     try:
         r = fn()
         out = ("ret", r)
     except Horizon:
         out = ("cut",)
+    except Runaway:
+        out = ("exc", "Runaway(non-terminating)")
     except RecursionError:
         out = ("exc", "RecursionError")
     except Exception as e:  # noqa: BLE001
         out = ("exc", normalise_exc(e))
-    return tuple(env.log), out
+    finally:
+        signal.setitimer(signal.ITIMER_VIRTUAL, 0)
+        signal.signal(signal.SIGVTALRM, old)
+    return tuple(env.log[:MAX_LOG]), out
 
 
 def compile_fn(src: str, name: str, env: Env) -> Callable[[], Any]:
